@@ -354,6 +354,9 @@ func (e *Engine) loadContracts() error {
 				if fn == nil {
 					return fmt.Errorf("%s:%d: function %q not found in %s", fc.File, fc.Line, fc.Ref, p.Types.Path())
 				}
+				if prev := e.funcC[fn]; prev != nil {
+					return fmt.Errorf("%s:%d: second contract for %q (first at line %d): merge them", fc.File, fc.Line, fc.Ref, prev.Line)
+				}
 				e.funcC[fn] = fc
 				e.funcCPkg[fc] = p.Types
 			case "extern":
